@@ -210,8 +210,22 @@ def ops_of_case(lines):
     return [l[2:] for l in lines if l.startswith('> ')]
 
 
-def run_pipeline(name, binp, opsfile, workdir, tag, timeout=3000):
+def run_pipeline(name, binp, opsfile, workdir, tag, timeout=None):
     """ops -> real, model, mon.  Returns dict of paths + errors."""
+    st = STREAMS[name]
+    if timeout is None:
+        timeout = 3000 if os.environ.get('VERIF_TIER_EFFECTIVE') == 'thorough' else 600
+    try:
+        return _run_pipeline(name, binp, opsfile, workdir, tag, timeout)
+    except subprocess.TimeoutExpired as e:
+        for fn in ('real', 'model', 'mon'):
+            open(os.path.join(workdir, f'{tag}.{fn}.txt'), 'a').close()
+        return dict(real=os.path.join(workdir, f'{tag}.real.txt'), model=os.path.join(workdir, f'{tag}.model.txt'),
+                    mon=os.path.join(workdir, f'{tag}.mon.txt'),
+                    errors=[f'timed out after {timeout}s: the implementation (or the model) hangs on this input'])
+
+
+def _run_pipeline(name, binp, opsfile, workdir, tag, timeout):
     st = STREAMS[name]
     real = os.path.join(workdir, f'{tag}.real.txt')
     model = os.path.join(workdir, f'{tag}.model.txt')
@@ -522,6 +536,7 @@ def main(argv):
     elif len(argv) >= 2:
         tier = argv[1]
     seed = int(os.environ.get('VERIF_SEED', '1'))
+    os.environ['VERIF_TIER_EFFECTIVE'] = tier
     t0 = time.time()
     spec = PROPS[prop]
     log = []
